@@ -497,6 +497,9 @@ class StartupRun:
                         async with ctx.resource_added.stream_events(max_queue_size=100000) as stream:
                             listening.set()
                             async for ev in stream:
+                                if ev.source is not ctx:
+                                    self.probe_failed(0, f"a resource_added event of the surrounding context is stamped with "
+                                                         f"source {type(ev.source).__name__} (not that context)", "C10,C18,C05")
                                 self.events.append((tuple(sorted(TYPES.index(t) if t in TYPES else -1 for t in ev.resource_types)), ev.resource_name,
                                                     ev.resource_description, ev.is_factory))
 
